@@ -58,6 +58,7 @@ type Engine struct {
 	MaxEnum   int
 	MaxAlloc  int
 	NoMerge   bool
+	MergeFull bool // merge differing states under selector variables (symbolic schedule); default: join identical states only
 	MaxConfigs int
 	Deadline  time.Time
 
@@ -96,10 +97,16 @@ type Engine struct {
 	fnIDs      map[*ssa.Function]int
 
 	harnessName string
-	promoted    map[string]bool // racy (type.field) cells promoted to visible
+	promoted    map[ssa.Instruction]bool // racy accesses promoted to visible operations
+	RaceInstrs  map[ssa.Instruction]bool
+	RaceCheck   bool
+	RaceIsViolation bool
+	curThread   ThreadID
+	curInstr    ssa.Instruction
 	Races       map[string]string
 	WitnessWanted bool
 	ReportAll     bool
+	Progress      bool
 	OnViolation   func(*Violation)
 	Observations  []string
 }
@@ -113,7 +120,7 @@ func NewEngine(prog *ssa.Program, solver *smt.Solver) *Engine {
 		initPkgs: map[string]bool{}, probes: map[*term.Term]*term.Term{}, strToBytes: map[*term.Term]Slice{},
 		bytesAx: map[int]bool{}, symVars: map[string]*term.Term{}, violSeen: map[string]bool{},
 		Funcs: map[string]bool{}, ModelsUsed: map[string]bool{}, fnIDs: map[*ssa.Function]int{},
-		promoted: map[string]bool{}, Races: map[string]string{},
+		promoted: map[ssa.Instruction]bool{}, RaceInstrs: map[ssa.Instruction]bool{}, Races: map[string]string{}, RaceCheck: true,
 	}
 	e.objKeys = append(e.objKeys, objKey{})
 	e.threadKeys = append(e.threadKeys, threadKey{})
@@ -325,8 +332,12 @@ func (e *Engine) RunInits(st *State) *State {
 // runSequentialCall runs fn() on the main thread to completion; it must neither fork nor block.
 func (e *Engine) runSequentialCall(st *State, fn *ssa.Function, what string) *State {
 	th := st.threadW(0)
+	th.Exited = false
 	e.callFunction(st, th, &Closure{Fn: fn}, nil, nil, FQuiesce)
 	depth := len(th.Frames)
+	if e.TraceExec {
+		fmt.Fprintf(e.Log, "== %s\n", what)
+	}
 	for {
 		th = st.Threads[0]
 		if len(th.Frames) < depth || th.Exited {
